@@ -1,45 +1,135 @@
 """C05 -- timer heap in the radix tree: proofs in Timer/HeapProofs.v; tie = timer_drv
-(real iv_timer.c) vs extracted HeapModel, heap array + back indices after every op."""
+(real iv_timer.c) vs extracted HeapModel, heap array + back indices after every op.
+Second stage: the radix tree itself -- proofs in Timer/RadixProofs.v (RadixModel refines
+HeapModel); tie = radix_drv (real iv_timer.c, calloc/free interposed) vs extracted RadixModel:
+the same fields plus reachable / allocated / freed node counts after every op, and iv_timer_deinit."""
 import os
 
+import hashlib
+from concurrent.futures import ThreadPoolExecutor
+
 import vlib
-from framework import LineCheck
+import runner
+from framework import LineCheck, first_diff
+
+TREE = "T"          # first token of a case that is run through the radix-tree stage only
 
 
 class C05(LineCheck):
     pid = "C05"
-    coq_targets = ["theories/Timer/HeapModel.vo", "theories/Timer/HeapSpec.vo", "theories/Timer/HeapProofs.vo"]
+    coq_targets = ["theories/Timer/HeapModel.vo", "theories/Timer/HeapSpec.vo", "theories/Timer/HeapProofs.vo",
+                   "theories/Timer/RadixModel.vo", "theories/Timer/RadixSpec.vo", "theories/Timer/RadixProofs.vo"]
     corr_name = ("correspondence timer_drv(iv_timer.c) = extracted HeapModel (rc, num_timers, rat_depth, numobjs, slot array walked "
-                 "through the real radix tree, every back index, fire order)")
+                 "through the real radix tree, every back index, fire order) and radix_drv(iv_timer.c) = extracted RadixModel "
+                 "(the same plus nodes reachable from timer_root, ratnode callocs, ratnode frees after every op; iv_timer_deinit)")
     trusted = [
-        "modelled, not verified: the radix tree is represented by the partial map it implements plus its depth (growth by one level, "
-        "remove_level dropping every slot >= 128^depth); node allocation/calloc zero-fill/free and the timer_root/first_leaf union "
-        "are not in the model (ASan/LSan + the dump through the real tree cover them)",
+        "HeapModel represents the radix tree by the partial map it implements plus its depth; RadixModel (nodes of 128 cells, calloc/free, "
+        "slot pointers as addresses, first_leaf/timer_root union) is proved to refine it (C05_radix_*); the node counts reachable = "
+        "allocated - freed + 1 are compared with the implementation and checked by the monitor, not proved",
+        "radix_drv.c counts calloc(1, sizeof(struct iv_timer_ratnode)) / free of such blocks via -Wl,--wrap; calloc failure (iv_fatal) is not modelled",
         "expiries are Z nanoseconds; timespec_gt on (sec, nsec) with 0 <= nsec < 1e9 is lexicographic = comparison of sec*1e9+nsec",
         "timer_drv.c sets st->time directly and calls iv_run_timers (internal entry point), handlers interpret scripts",
     ]
     assumptions = [
-        "num_timers < 2^31 (C int); register/unregister are only called when allowed by iv_timer_registered (the library aborts otherwise)",
+        "num_timers < 2^28 (C int arithmetic is modelled in Z; at rat_depth 4, i.e. from 2^28 timers on, iv_timer_get_node shifts a 32-bit int by 35: "
+        "C05_radix_shift_defined / C05_radix_shift_refuted); register/unregister are only called when allowed by iv_timer_registered "
+        "(the library aborts otherwise)",
     ]
     rule = ("cases = seeded histories of guarded register/unregister/run-timers with handler scripts; victims biased to root/last/interior/"
-            "equal expiries; ramps crossing the 128 and 16384 capacity boundaries in both directions; non-trivial = the case contains an "
+            "equal expiries; ramps crossing the 128 and 16384 capacity boundaries in both directions; tree-stage cases (prefix T): unregister of the "
+            "last/first/middle/random index exactly at num_timers = 128 and = 16384, oscillation around both boundaries, high-water ramps "
+            "(up, down without crossing, up again, down across), iv_timer_deinit (Z) on empty / populated trees of depth 0, 1, 2; every case "
+            "of the first stage is also run through the tree stage; non-trivial = the case contains an "
             "unregister of an interior slot (1 < index < num), or a run that fires >= 2 timers, or a depth change; distinct = distinct case text")
 
     def build(self, ctx):
         d = os.path.join(ctx.work, "b")
-        ok, out = vlib.coq_extract("Extract/ExtractHeap.v", d)
-        if not ok:
-            return False, out
-        with open(os.path.join(d, "heap_drv.ml"), "w") as f:
-            f.write("open Heap_model\n")
-            f.write(open(os.path.join(vlib.VERIF, "ocaml", "zutil.ml.in")).read())
-            f.write(open(os.path.join(vlib.VERIF, "ocaml", "heap_drv.ml.in")).read())
-        ok, out2 = vlib.ocaml_build(d, ["heap_model.ml", "heap_drv.ml"], "heap_model_run")
-        if not ok:
-            return False, out + out2
-        ok, out3 = vlib.cc_build(d, "timer_drv", ["timer_drv.c"], vlib.LIB_SRCS)
         self.d = d
-        return ok, out + out2 + out3
+
+        def model(vfile, ml, drv, exe, mod):
+            ok, out = vlib.coq_extract(vfile, d)
+            if not ok:
+                return False, out
+            with open(os.path.join(d, drv + ".ml"), "w") as f:
+                f.write("open %s\n" % mod)
+                f.write(open(os.path.join(vlib.VERIF, "ocaml", "zutil.ml.in")).read())
+                f.write(open(os.path.join(vlib.VERIF, "ocaml", drv + ".ml.in")).read())
+            ok, out2 = vlib.ocaml_build(d, [ml, drv + ".ml"], exe)
+            return ok, out + out2
+
+        def harness():
+            ok, out = vlib.cc_build(d, "timer_drv", ["timer_drv.c"], vlib.LIB_SRCS)
+            if not ok:
+                return False, out
+            # the library objects of the first build are linked again; calloc/free are interposed to count rat-nodes
+            objs = [os.path.join(d, "lib_" + s_ + ".o") for s_ in vlib.LIB_SRCS]
+            ok, out2 = vlib.cc_build(d, "radix_drv", ["radix_drv.c"], [], ldflags=objs, wraps=["calloc", "free"])
+            return ok, out + out2
+
+        with ThreadPoolExecutor(max_workers=3) as ex:
+            jobs = [ex.submit(model, "Extract/ExtractHeap.v", "heap_model.ml", "heap_drv", "heap_model_run", "Heap_model"),
+                    ex.submit(model, "Extract/ExtractRadix.v", "radix_model.ml", "radix_drv", "radix_model_run", "Radix_model"),
+                    ex.submit(harness)]
+            res = [j_.result() for j_ in jobs]
+        return all(r[0] for r in res), "".join(r[1] for r in res)
+
+    # ---- two stages ----
+    def correspond(self, ctx, cases):
+        """Stage 1 (heap): every case without the T marker, as before.  Stage 2 (tree): every case."""
+        hidx = [i for i, c in enumerate(cases) if not c.startswith(TREE + " ")]
+        env = dict(runner.ASAN_ENV)
+
+        def stage2():
+            m = runner.run_cases_sharded([os.path.join(self.d, "radix_model_run"), "run"], cases, timeout=self.timeout(ctx))
+            i = runner.run_cases_sharded([os.path.join(self.d, "radix_drv")], cases, timeout=self.timeout(ctx), env=env)
+            mo = runner.run_monitor([os.path.join(self.d, "radix_model_run"), "mon"], cases, [r[0] for r in i],
+                                    os.path.join(ctx.work, "tree"))
+            return m, i, mo
+
+        # the first stage is dominated by its longest case on one core; the tree stage runs beside it
+        with ThreadPoolExecutor(max_workers=1) as ex:
+            fut = ex.submit(stage2)
+            st1 = LineCheck.correspond(self, ctx, [cases[i] for i in hidx]) if hidx else \
+                {"n": 0, "div": [], "crashes": [], "monfail": [], "nontrivial": 0, "mres": [], "ires": [], "mon": []}
+            m2, i2, mon2 = fut.result()
+        n = len(cases)
+        mres = [(None, None)] * n
+        ires = [(None, None)] * n
+        mon = ["OK"] * n
+        for k, i in enumerate(hidx):
+            mres[i], ires[i] = st1["mres"][k], st1["ires"][k]
+            if st1["mon"] is not None:
+                mon[i] = st1["mon"][k]
+        div = [(hidx[k], w) for k, w in st1["div"]]
+        crashes = [(hidx[k], w) for k, w in st1["crashes"]]
+        monfail = [(hidx[k], w) for k, w in st1["monfail"]]
+        bad1 = set(i for i, _ in div + crashes + monfail)
+        # merge the tree stage
+        nontriv = set()
+        for idx, c in enumerate(cases):
+            mo, merr = m2[idx]
+            io, ierr = i2[idx]
+            bad = None
+            if merr is not None or mo is None:
+                div.append((idx, "tree stage: model runner failed: %s" % (merr or "")[:300]))
+                bad = True
+            elif ierr is not None:
+                crashes.append((idx, "tree stage (radix_drv):\n" + ierr))
+                bad = True
+            elif io != mo:
+                div.append((idx, "tree stage: " + first_diff(mo, io)))
+                bad = True
+            if ierr is None and not mon2[idx].startswith("OK"):
+                monfail.append((idx, "tree stage: " + mon2[idx]))
+                bad = True
+            if idx not in bad1 and (bad or idx not in hidx):
+                mres[idx], ires[idx] = m2[idx], i2[idx]
+                mon[idx] = mon2[idx]
+            if self.nontrivial(c, mo if idx not in hidx else mres[idx][0]):
+                nontriv.add(hashlib.sha1(c.encode()).hexdigest())
+        self.n_tree_only = n - len(hidx)
+        return {"n": n, "div": sorted(set(div)), "crashes": crashes, "monfail": monfail,
+                "nontrivial": len(nontriv), "mres": mres, "ires": ires, "mon": mon}
 
     def model_cmd(self, ctx):
         return [os.path.join(self.d, "heap_model_run"), "run"]
@@ -112,6 +202,77 @@ class C05(LineCheck):
         toks.append("D")
         return " ".join(toks)
 
+    def tree_cases(self, rng, tier):
+        """Cases for the radix-tree stage only (prefix T).  Timer ids are fresh per case."""
+        out = []
+
+        def regs(lo, hi):
+            return ["r%d@%d" % (i, rng.randint(0, 1000)) for i in range(lo, hi + 1)]
+
+        def victim(kind, live):
+            if kind == "last":
+                return len(live) - 1
+            if kind == "first":
+                return 0
+            if kind == "middle":
+                return len(live) // 2
+            return rng.randrange(len(live))
+
+        for b, quiet in ((128, False), (16384, True)):
+            pre = [TREE] + (["Q"] if quiet else [])
+            # unregister exactly at the boundary: num_timers == b -> b - 1 frees a level
+            for kind in ("last", "first", "middle", "random"):
+                live = list(range(1, b + 1))
+                toks = pre + regs(1, b) + ["D"]
+                toks.append("u%d" % live.pop(victim(kind, live)))
+                toks.append("D")
+                # and straight back up and down again
+                toks += ["r%d@%d" % (b + 1, rng.randint(0, 1000)), "u%d" % live.pop(victim(kind, live)), "D"]
+                out.append(" ".join(toks))
+            # oscillation b-3 .. b+3 with random victims
+            live = list(range(1, b - 2))
+            toks = pre + regs(1, b - 3)
+            nxt = b - 2
+            for _ in range(60 if tier == "quick" else 300):
+                if len(live) <= b - 3 or (len(live) < b + 3 and rng.random() < 0.5):
+                    toks.append("r%d@%d" % (nxt, rng.randint(0, 1000)))
+                    live.append(nxt)
+                    nxt += 1
+                else:
+                    toks.append("u%d" % live.pop(victim(rng.choice(["last", "first", "middle", "random"]), live)))
+            toks.append("D")
+            out.append(" ".join(toks))
+            # high-water: up past the boundary by several leaves, down without crossing, up again (no new node), down across
+            extra = 300
+            live = list(range(1, b + extra + 1))
+            toks = pre + regs(1, b + extra) + ["D"]
+            while len(live) > b + 2:
+                toks.append("u%d" % live.pop(victim("random", live)))
+            toks.append("D")
+            nxt = b + extra + 1
+            for _ in range(extra - 2):
+                toks.append("r%d@%d" % (nxt, rng.randint(0, 1000)))
+                live.append(nxt)
+                nxt += 1
+            toks.append("D")
+            while len(live) > b - 2:
+                toks.append("u%d" % live.pop(victim(rng.choice(["last", "first", "random"]), live)))
+            toks.append("D")
+            out.append(" ".join(toks))
+        # iv_timer_deinit on the tree as it is
+        for npop in (0, 5, 127, 128, 129, 300) + ((16383, 16384, 16700) if tier == "quick" else (16383, 16384, 16385, 16700, 33000)):
+            toks = [TREE, "Q"] + regs(1, npop)
+            if npop > 10:
+                live = list(range(1, npop + 1))
+                for _ in range(rng.randint(0, 6)):
+                    toks.append("u%d" % live.pop(victim("random", live)))
+            toks += ["D", "Z"]
+            out.append(" ".join(toks))
+        # deinit after a level was removed (high-water above the population)
+        toks = [TREE, "Q"] + regs(1, 400) + ["u%d" % i for i in range(400, 120, -1)] + ["D", "Z"]
+        out.append(" ".join(toks))
+        return out
+
     def cases(self, ctx):
         rng = vlib.rng_for(ctx.seed, "C05")
         cases = []
@@ -130,12 +291,14 @@ class C05(LineCheck):
         for top, q in ramps:
             cases.append(self.ramp(rng, top, q))
         self.n_ramps = len(ramps)
-        return cases
+        tc = self.tree_cases(vlib.rng_for(ctx.seed, "C05tree"), ctx.tier)
+        self.n_tree = len(tc)
+        return cases + tc
 
     def nontrivial(self, case, mo):
         if mo is None:
             return False
-        ops = [t for t in case.split() if t[0] != "S" and t != "Q"]
+        ops = [t for t in case.split() if t[0] != "S" and t != "Q" and t != TREE]
         segs = mo.split(" | ")
         depth = set()
         prev_n = 0
@@ -154,11 +317,12 @@ class C05(LineCheck):
         return {"case": case[:600] + (" ...[%d tokens]" % len(case.split()) if len(case) > 600 else "")}
 
     def signature(self, case, why):
-        return "heap:" + ("crash" if "crash" in why or "sanitizer" in why else "monitor")
+        return ("tree:" if "tree stage" in why else "heap:") + ("crash" if "crash" in why or "sanitizer" in why else "monitor")
 
     def distribution(self, cases):
         toks = [t for c in cases for t in c.split()]
         return {"corpus_cases": self.n_corpus, "histories": self.n_hist, "ramps": self.n_ramps,
+                "tree_stage_only_cases": getattr(self, "n_tree", 0), "deinit_ops": sum(1 for t in toks if t == "Z"),
                 "register_ops": sum(1 for t in toks if t[0] == "r"), "unregister_ops": sum(1 for t in toks if t[0] == "u"),
                 "run_ops": sum(1 for t in toks if t[0] == "x"), "scripts": sum(1 for t in toks if t[0] == "S")}
 
@@ -170,6 +334,13 @@ class C05(LineCheck):
         toks = case.split()
         if len(toks) > 3000:
             return case
+        if toks and toks[0] == TREE:
+            keep = [TREE] + (["Q"] if "Q" in toks else [])
+            body = [t for t in toks[1:] if t != "Q"]
+            return " ".join(keep + self._shrink_toks(ctx, body, keep))
+        return " ".join(self._shrink_toks(ctx, toks, []))
+
+    def _shrink_toks(self, ctx, toks, keep):
         tries = 0
         chunk = max(1, len(toks) // 2)
         while chunk >= 1 and tries < 150:
@@ -178,17 +349,19 @@ class C05(LineCheck):
             while i < len(toks) and tries < 150:
                 cand = toks[:i] + toks[i + chunk:]
                 tries += 1
-                if cand and self._fails(ctx, " ".join(cand)):
+                if cand and self._fails(ctx, " ".join(keep + cand)):
                     toks = cand
                     changed = True
                 else:
                     i += chunk
             if not changed or chunk == 1:
                 chunk //= 2
-        return " ".join(toks)
+        return toks
 
     def widen(self, ctx, case):
         toks = case.split()
         if len(toks) > 400:
             return []
+        if toks and toks[0] == TREE:
+            return [" ".join(toks[:k]) for k in range(2, len(toks) + 1)]
         return [" ".join(toks[:k]) for k in range(1, len(toks) + 1)]
